@@ -13,6 +13,7 @@ import (
 	"sort"
 	"strings"
 	"sync"
+	"syscall"
 	"time"
 
 	"verifsim/simrt"
@@ -390,4 +391,7 @@ func (c *SimConn) Unread() int {
 	return len(c.s2c)
 }
 
-var ErrReset = &net.OpError{Op: "read", Net: "tcp", Err: errors.New("connection reset by peer (simulated)")}
+// ErrReset is what a read or write on a connection severed by the peer returns: as the kernel reports it, an
+// *net.OpError around the ECONNRESET errno, so that code which classifies errors (errors.Is(err, syscall.ECONNRESET))
+// sees what it would see in production.
+var ErrReset = &net.OpError{Op: "read", Net: "tcp", Err: os.NewSyscallError("read", syscall.ECONNRESET)}
